@@ -182,7 +182,7 @@ func c16ExhItems(thorough bool) []exhItem {
 	if thorough {
 		for _, pv := range shapes(7) {
 			for k := 0; k < 4; k++ {
-				items = append(items, exhItem{pv: pv, count: 3, sampled: true})
+				items = append(items, exhItem{pv: pv, count: 5, sampled: true})
 			}
 		}
 	}
@@ -292,7 +292,7 @@ func TestVerifC16(t *testing.T) {
 	}
 	cases := 250
 	if r.Thorough() {
-		cases = 40 // x scale
+		cases = 100 // x scale, 50 orders each
 	}
 	r.Cases("rand", r.Scale(cases), func(c *vcommon.Case) { randC16(c, nOrders) })
 }
